@@ -218,6 +218,14 @@ bool StepScript(InterpreterEnv& env)
     }
 
     if (env.successor_script.size()) {
+        // the scriptSig has been executed; consensus rules at the scriptSig -> scriptPubKey seam
+        // (each script is evaluated on its own: conditionals must be balanced, the alt stack is not carried over)
+        if (!vfExec.empty())
+            return set_error(serror, SCRIPT_ERR_UNBALANCED_CONDITIONAL);
+        const bool spk_is_p2sh = (env.flags & SCRIPT_VERIFY_P2SH) && env.successor_script.IsPayToScriptHash();
+        if (((env.flags & SCRIPT_VERIFY_SIGPUSHONLY) || spk_is_p2sh) && !script.IsPushOnly())
+            return set_error(serror, SCRIPT_ERR_SIG_PUSHONLY);
+        env.altstack.clear();
         script = env.successor_script;
         env.successor_script.clear();
         pc = env.pbegincodehash = script.begin();
